@@ -203,9 +203,36 @@ func c07Scenario(c *fw.Ctx, s int) {
 			node := n1
 			where := "n1"
 			if twoNodes && rg.Intn(2) == 0 {
+				// replication to the second node: in-order gossip, gossip delivered in reverse order,
+				// or gossip lost altogether and repaired by a full-state exchange
+				drain := func(n *kit.Node) [][]byte {
+					var out [][]byte
+					for {
+						bs := n.Bcast.GetBroadcasts(0, 1<<30)
+						if len(bs) == 0 {
+							return out
+						}
+						out = append(out, bs...)
+					}
+				}
+				switch rg.Intn(3) {
+				case 0:
+					where = "n2(gossip)"
+				case 1:
+					bs := drain(n1)
+					for i := len(bs) - 1; i >= 0; i-- {
+						n2.State.Distributor().NotifyMsg(bs[i])
+					}
+					where = "n2(gossip reversed)"
+					c.Observe("replications_reversed", 1)
+				case 2:
+					drain(n1) // lost
+					cl.PushPull(n1, n2)
+					where = "n2(gossip lost, full-state exchange)"
+					c.Observe("replications_by_full_state", 1)
+				}
 				cl.Quiesce() // gossip barrier
 				node = n2
-				where = "n2"
 			}
 			trace = append(trace, fmt.Sprintf("subscribe@%s %s", where, f))
 			sentinelSeq++
